@@ -1,11 +1,23 @@
 from __future__ import annotations
 
+import re
 from decimal import Decimal
 from typing import Protocol, Any
 
 from . import isoduration
 
 STRICT_VALUE_CHECK = True
+
+# Lexical spaces of xsd:integer and xsd:decimal (after XML whitespace collapse). int() and Decimal() accept
+# more than that ('1_0', non-ASCII digits, 'NaN', 'Infinity', '1E5'), such values must be rejected.
+_XSD_INTEGER = re.compile(r'[ \t\r\n]*[+-]?[0-9]+[ \t\r\n]*')
+_XSD_DECIMAL = re.compile(r'[ \t\r\n]*[+-]?(?:[0-9]+(?:\.[0-9]*)?|\.[0-9]+)[ \t\r\n]*')
+
+
+def _check_lexical(pattern: re.Pattern, xml_value: str, type_name: str) -> str:
+    if pattern.fullmatch(xml_value) is None:
+        raise ValueError(f'{xml_value!r} is not a valid {type_name}')
+    return xml_value
 
 
 class DataConverterProtocol(Protocol):
@@ -128,7 +140,7 @@ class TimestampConverter(NullConverter):
     def to_py(cls, xml_value: str) -> float | None:
         if xml_value is None:
             return None
-        return int(xml_value) / 1000
+        return int(_check_lexical(_XSD_INTEGER, xml_value, 'xsd:integer')) / 1000
 
     @staticmethod
     def to_xml(py_value) -> str:
@@ -151,6 +163,7 @@ class DecimalConverter(NullConverter):
     def to_py(cls, xml_value: str) -> Decimal | int | float:
         if xml_value is None:
             return None
+        _check_lexical(_XSD_DECIMAL, xml_value, 'xsd:decimal')
         if cls.USE_DECIMAL_TYPE:
             return Decimal(xml_value)
         if '.' in xml_value:
@@ -216,7 +229,7 @@ class IntegerConverter(NullConverter):
     def to_py(xml_value: str) -> int:
         if xml_value is None:
             return None
-        return int(xml_value)
+        return int(_check_lexical(_XSD_INTEGER, xml_value, 'xsd:integer'))
 
     @staticmethod
     def to_xml(py_value: int) -> str:
